@@ -39,7 +39,8 @@ def formula(n, deps, salt):
     own = POS[n][0]
     deps = sorted(deps)
     if not deps:
-        return PRIMES[n]
+        # constants of every kind a slice may end in: zero and FALSE are cells like any other
+        return [PRIMES[n], 0, PRIMES[n], False, PRIMES[n], 0.0][(salt + 2 * n) % 6]
     terms = []
     rest = list(deps)
     mode = (salt + n) % 5
@@ -48,7 +49,7 @@ def formula(n, deps, salt):
     if len(run) >= 2 and run == list(range(run[0], run[-1] + 1)) and mode in (0, 1, 3):
         a, b = ref(run[0], own, salt), ref(run[-1], own, salt + 1).split('!')[-1]   # a prefix goes on the first corner only
         rng_txt = f'{a}:{b}'
-        terms.append(f'SUM({rng_txt})' if mode != 3 else f'SUM({rng_txt},0)')
+        terms.append(f'SUM({rng_txt})' if mode == 0 else f'COUNT({rng_txt})*10' if mode == 1 else f'SUM({rng_txt},0)')
         rest = [d for d in rest if d not in run]
     for i, d in enumerate(rest):
         f = salt + i * 3 + n
